@@ -20,6 +20,13 @@
 #ifndef VERIF_ENV_SPLIT_H
 #define VERIF_ENV_SPLIT_H
 
+#ifdef VERIF_NATIVE
+/* native replay of a B unit (driver: `native: self`): the real libc and allocator run under ASan/UBSan, which
+ * judge every out-of-bounds access themselves; the model-only hooks are empty */
+# define vs_check_block(p) ((void) (p))
+# define VS_ALLOC_OBJ(type) ((SPIF_TYPE(type)) malloc(SPIF_SIZEOF_TYPE(type)))
+#else
+
 #ifdef VERIF_SPLIT_PRECISE
 # if !defined(VERIF_OWN_STRLEN) || !defined(VERIF_OWN_STRCHR)
 #  error "VERIF_SPLIT_PRECISE units must define VERIF_OWN_STRLEN and VERIF_OWN_STRCHR before vprelude.h"
@@ -204,4 +211,5 @@ void *realloc(void *p, size_t n)
 }
 #endif
 
+#endif /* !VERIF_NATIVE */
 #endif /* VERIF_ENV_SPLIT_H */
